@@ -115,6 +115,8 @@ package resolver
 //@ func usableAddr
 //@   modifies nothing
 //@   ensures result1 ==> addrFromSliceOK(ip) && result0 == addrUnmap(addrFromSlice(ip)) && !addrLoopback(result0) && !localIP(ip)
+//@   # ... nor the unspecified address (0.0.0.0, ::), which a dial turns into this host
+//@   ensures result1 ==> !addrUnspecified(result0)
 //@
 //@ # glue is taken only from A/AAAA records whose owner shares at least `level` trailing labels with the query name
 //@ # (the delegating zone), is one of the referral's nameserver hosts, and carries a usable address
